@@ -3,10 +3,13 @@ package verifh
 import (
 	"encoding/json"
 	"flag"
+	"os"
+	"path/filepath"
+	"sort"
 	"fmt"
 	"runtime/debug"
 	"strconv"
-	"sync"
+	"strings"
 	"testing"
 
 	"pgregory.net/rapid"
@@ -30,14 +33,16 @@ func bad(nt bool, labels []string, format string, a ...any) verdict {
 type part[C any] struct {
 	id, name, rule string
 	check          func(C) verdict
-	once           sync.Once
 	recorder       *ev.Recorder
 }
 
 var replayers = map[string]func(json.RawMessage) error{}
+var recorders = map[string]*ev.Recorder{}
 
 func newPart[C any](id, name, rule string, check func(C) verdict) *part[C] {
 	p := &part[C]{id: id, name: name, rule: rule, check: check}
+	p.recorder = ev.New(id, name, rule)
+	recorders[id+"/"+name] = p.recorder
 	replayers[id+"/"+name] = func(raw json.RawMessage) error {
 		var c C
 		if err := json.Unmarshal(raw, &c); err != nil {
@@ -48,17 +53,14 @@ func newPart[C any](id, name, rule string, check func(C) verdict) *part[C] {
 	return p
 }
 
-func (p *part[C]) rec() *ev.Recorder {
-	p.once.Do(func() { p.recorder = ev.New(p.id, p.name, p.rule) })
-	return p.recorder
-}
+func (p *part[C]) rec() *ev.Recorder { return p.recorder }
 
 // safe runs the check and turns a panic escaping the library into a violation:
 // every property's domain consists of arguments the library must answer.
 func (p *part[C]) safe(c C) (v verdict) {
 	defer func() {
 		if r := recover(); r != nil {
-			v.Err = fmt.Errorf("panic: %v\n%s", r, debug.Stack())
+			v.Err = fmt.Errorf("panic: %v\n%s", r, trimStack(debug.Stack()))
 			v.NT = true
 			v.Labels = append(v.Labels, "panic")
 		}
@@ -121,4 +123,48 @@ func TestReplay(t *testing.T) {
 		return
 	}
 	fmt.Printf("REPLAY-PASS property=%s part=%s\n", rp.Property, rp.Part)
+}
+
+// TestRegress re-runs the saved failing inputs of this property (witnesses of
+// repaired defects, shrunk cases of seeded mutants) — the seconds-long replay tier.
+func TestRegress(t *testing.T) {
+	pid := os.Getenv("VERIF_PID")
+	dir := filepath.Join(os.Getenv("VERIF_ROOT"), "regress", pid)
+	files, _ := filepath.Glob(filepath.Join(dir, "*.json"))
+	if pid == "" || len(files) == 0 {
+		t.Skip("no saved inputs")
+	}
+	rec := ev.New(pid, "regress", "saved failing inputs (witnesses of repaired defects and shrunk cases of seeded mutants) re-run through their checks without the generator library; each file is a distinct non-trivial case")
+	defer rec.Flush()
+	sort.Strings(files)
+	for _, f := range files {
+		b, err := os.ReadFile(f)
+		must(err)
+		var rp ev.Replay
+		must(json.Unmarshal(b, &rp))
+		fn := replayers[rp.Property+"/"+rp.Part]
+		if fn == nil {
+			t.Fatalf("INFRA: no replayer for %s/%s (%s)", rp.Property, rp.Part, f)
+		}
+		rec.Case(map[string]any{"file": filepath.Base(f), "case": rp.Case}, true, "regress:"+rp.Part)
+		if err := fn(rp.Case); err != nil {
+			ev.WriteReplay(rp.Property, rp.Part, rp.Case, err)
+			t.Fatalf("%s/%s violated on saved input %s: %v", rp.Property, rp.Part, filepath.Base(f), err)
+		}
+	}
+}
+
+// trimStack keeps the frames of the library under test (and a bounded prefix).
+func trimStack(b []byte) string {
+	lines := strings.Split(string(b), "\n")
+	var out []string
+	for i := 0; i+1 < len(lines); i++ {
+		if strings.Contains(lines[i], "github.com/ja7ad/otp") {
+			out = append(out, lines[i], strings.TrimSpace(lines[i+1]))
+		}
+		if len(out) >= 12 {
+			break
+		}
+	}
+	return strings.Join(out, "\n")
 }
